@@ -5,7 +5,7 @@
 From Coq Require Import ZArith List Bool.
 From Flocq Require Import IEEE754.Binary.
 Import ListNotations.
-Require Import SZV.Base.FloatOps SZV.Model.Quant SZV.Model.QuantFloat SZV.Model.QuantFloat2 SZV.Proofs.Quant_proofs SZV.Proofs.QuantFloat_proofs SZV.Proofs.QuantFloat2_proofs.
+Require Import SZV.Base.FloatOps SZV.Model.Quant SZV.Model.QuantFloat SZV.Model.QuantFloat2 SZV.Model.QuantFloat3 SZV.Proofs.Quant_proofs SZV.Proofs.QuantFloat_proofs SZV.Proofs.QuantFloat2_proofs SZV.Proofs.QuantFloat3_proofs.
 Local Open Scope Z_scope.
 
 (* generic: lock-step and bound from the three obligations (any value type, predictor, quantiser) *)
@@ -99,6 +99,24 @@ Theorem C01_float2d_bound_partial : forall c xs h,
   ex = true -> let '(_, _, rs) := fenc2 c h xs in Forall2 (fun x r => f_ok2 c x r = true) xs rs.
 Proof. exact f2d_bound. Qed.
 Print Assumptions C01_float2d_bound_partial.
+
+(* float 3-D (SZ_compress_float_3D_MDQ / decompressDataSeries_float_3D): the 2-D kernel's quantiser under the seven-point stencil *)
+Theorem C01_float3d_recheck : forall c h p x q r, fquant3 c h p x = Some (q, r) -> f_ok3 c x r = true.
+Proof. exact fquant3_ok. Qed.
+Print Assumptions C01_float3d_recheck.
+Theorem C01_float3d_mirror : forall c h p x q r, fquant3 c h p x = Some (q, r) -> fdequant3 c p q = r.
+Proof. exact fquant3_mirror. Qed.
+Print Assumptions C01_float3d_mirror.
+Theorem C01_float3d_lockstep_checked : forall c xs h,
+  let '(nz, _, _, _) := fchecks3 c h xs in
+  nz = true -> let '(qs, es, rs) := fenc3 c h xs in fdec3 c h qs es = Some rs.
+Proof. exact f3d_lockstep. Qed.
+Print Assumptions C01_float3d_lockstep_checked.
+Theorem C01_float3d_bound_partial : forall c xs h,
+  let '(_, _, _, ex) := fchecks3 c h xs in
+  ex = true -> let '(_, _, rs) := fenc3 c h xs in Forall2 (fun x r => f_ok3 c x r = true) xs rs.
+Proof. exact f3d_bound. Qed.
+Print Assumptions C01_float3d_bound_partial.
 
 (* before the repair the double 1-D kernel had no re-check; pred + 2ke rounds away from the value
    (data 0, 0, 0.5, e = 0.1: reconstruction 0.6000000000000001, error 0.10000000000000009 > 0.1) *)
